@@ -297,4 +297,4 @@ let handle (line : string) (kind : string) (args : string list) (obs : string) :
   | "absearch" | "halt" -> Dispatch3.handle line kind args obs
   | "fenrt" | "decode" | "parsemove" | "parsesq" | "engmove" | "engfen" | "enggame" | "ucipos" -> Dispatch4.handle line kind args obs
   | "ttseq" -> Dispatch5.handle line kind args obs
-  | _ -> Dispatch6.handle line kind args obs
+  | _ -> Dispatch7.handle line kind args obs
